@@ -2,10 +2,11 @@
 use crate::report::Report;
 
 pub fn run(report: &Report) {
-    report.bound("every float table over 25 letters incl. negative/NaN/infinite entries x 7 normalization variants; ALL u8 fixed-point tables of length <= 2 (thorough: 3) x infer_last x 4 symbol-list variants at 5 precisions; u16 boundary tables; every support size 0..=2^P+2 for small P plus aliasing sizes; uniform ranges incl. aliasing ones");
+    report.bound("every float table over 25 letters incl. negative/NaN/infinite entries x 7 normalization variants; ALL u8 fixed-point tables of length <= 2 (thorough: 3) x infer_last x 4 symbol-list variants at 5 precisions; u16 boundary tables; every support size 0..=2^P+2 for small P plus aliasing sizes; uniform ranges incl. aliasing ones; through the Python front end: every float table of length <= 3 over 16 boundary floats (f32/f64, fast/perfect/lazy)");
     report.require("constructor_returned_err");
     report.require("models_built");
     super::mfamily::run(report, "C19");
+    super::pyfront::c19_part(report);
 }
 
 pub fn replay(case: &serde_json::Value) -> Result<String, String> {
